@@ -25,6 +25,7 @@ func checkC09(w *World, r *Report) {
 	checkC09Fallback(w, r)
 	checkNoEmptyCapture(w, r, "C09.4")
 	checkCursorReset(w, r, "C09.5")
+	checkSkipStackReset(w, r, "C09.6")
 }
 
 // findCalls returns the call expressions to fn name inside the function body.
@@ -94,8 +95,10 @@ func checkC09PathPhase(w *World, r *Report, id string) {
 		fmt.Sprintf("hostConsumed=%v keyConsumed=%v slashChildFound=%v child=%s", host, key, slash && idxFromSlash, child))
 }
 
-func checkC09Strip(w *World, r *Report) {
-	ru := r.Rule("C09.2", "port and trailing dot removed: the host given to the host matcher is StripHostPort(request host), tested non-empty first; StripHostPort returns its argument unchanged only when it is empty, net.SplitHostPort failed or the text after the last ':' is not a numeric port, and otherwise returns strings.TrimSuffix(host, \".\")", 2)
+func checkC09Strip(w *World, r *Report) { checkC09StripAs(w, r, "C09.2") }
+
+func checkC09StripAs(w *World, r *Report, id string) {
+	ru := r.Rule(id, "port and trailing dot removed: the host given to the host matcher is StripHostPort(request host), tested non-empty first; StripHostPort returns its argument unchanged only when it is empty, net.SplitHostPort failed or the text after the last ':' is not a numeric port, and otherwise returns strings.TrimSuffix(host, \".\")", 2)
 	af := w.astFuncOf(modulePath, "roots.lookup")
 	calls := findCalls(af.decl.Body, "lookupByDomain")
 	if len(calls) != 1 {
